@@ -60,11 +60,12 @@ AssignActions ==
     \/ \E t \in {"x"} : \E ds \in NdShapes(ar[t].dims) \cup UNION {{DimsOut(ar[t], k)} : k \in KeyMenu(ar[t].dims, FALSE)} : NewNd(ds)
     \/ MutateNd
     \/ Poke("x")
+    \/ Poke("y")          \* writing into the SOURCE after an assignment must not reach the target
 
 AliasActions ==
     \/ \E d \in {"z"}, op \in {"add", "sub", "mul"}, s1 \in {"x"}, s2 \in {"x", "y"} : Arith(d, op, s1, s2)
     \/ \E d \in {"z"}, s \in {"x"} :
-          \/ \E op \in {"copy", "neg", "full_like"} : Unary(d, op, s, <<>>)
+          \/ \E op \in {"copy", "neg", "full_like"} \cup NeutralOps : Unary(d, op, s, <<>>)
           \/ \E t \in TargetDims(ar[s].dims) : (RootsDistinct(Range(t) \cup Range(ar[s].dims)) /\ Unary(d, "cast_to", s, t))
           \/ \E k \in OrderedSubsets(Range(ar[s].dims)) : Unary(d, "sum_to", s, k)
           \/ \E l \in Range(ar[s].dims) : Unary(d, "cumsum", s, <<l>>)
